@@ -38,16 +38,45 @@ struct ValueHandle { blob_file_id: BlobFileId, offset: u64, on_disk_size: u32 }
 struct BlobIndirection { vhandle: ValueHandle, size: u32 }
 uninterp spec fn ind_bytes(i: BlobIndirection) -> Seq<u8>;
 impl BlobIndirection { #[verifier::external_body] fn encode_into_vec(&self) -> (r: UserValue) ensures r@ == ind_bytes(*self) { unimplemented!() } }
-/// table::MultiWriter of the flush: the entries written and the blob links registered, in order
-struct TableWriter { ghost items: Seq<InternalValue>, ghost links: Seq<BlobIndirection> }
+/// table::MultiWriter of the flush: the entries written and the blob links registered, in order; which output table is current, which
+/// table each written entry went to and which table each link was attached to (same model as unit blob_links)
+struct TableWriter { ghost items: Seq<InternalValue>, ghost links: Seq<BlobIndirection>, ghost cur: int, ghost item_tables: Seq<int>, ghost link_tables: Seq<int> }
 impl TableWriter {
+    /// write may first rotate to a fresh table (src/table/multi_writer.rs: write; the links registered so far stay with the finished one: unit table_rotate)
     #[verifier::external_body]
     fn write(&mut self, item: InternalValue) -> (r: Result<(), Error>)
-        ensures final(self).links == old(self).links, r is Ok ==> final(self).items == old(self).items.push(item), r is Err ==> final(self).items == old(self).items
+        ensures final(self).links == old(self).links, r is Ok ==> final(self).items == old(self).items.push(item), r is Err ==> final(self).items == old(self).items,
+            final(self).link_tables == old(self).link_tables, final(self).cur >= old(self).cur,
+            r is Ok ==> final(self).item_tables == old(self).item_tables.push(final(self).cur), r is Err ==> final(self).item_tables == old(self).item_tables,
     { unimplemented!() }
     #[verifier::external_body]
-    fn register_blob(&mut self, indirection: BlobIndirection) ensures final(self).items == old(self).items, final(self).links == old(self).links.push(indirection) { unimplemented!() }
+    fn register_blob(&mut self, indirection: BlobIndirection)
+        ensures final(self).items == old(self).items, final(self).links == old(self).links.push(indirection),
+            final(self).cur == old(self).cur, final(self).item_tables == old(self).item_tables, final(self).link_tables == old(self).link_tables.push(old(self).cur),
+    { unimplemented!() }
 }
+/// the tables the pointer entries among `items` went to, in order
+spec fn ptr_tables(items: Seq<InternalValue>, tabs: Seq<int>) -> Seq<int>
+    decreases items.len()
+{
+    if items.len() == 0 || tabs.len() != items.len() { Seq::empty() } else {
+        let p = ptr_tables(items.drop_last(), tabs.drop_last());
+        if items.last().key.value_type == ValueType::Indirection { p.push(tabs.last()) } else { p }
+    }
+}
+/// every pointer entry written has exactly one link, attached to the table the entry went to (so each finished table's
+/// linked_blob_files describe exactly the pointers it holds)
+spec fn no_ptrs(s: Seq<Result<InternalValue, Error>>) -> bool { forall|i: int| 0 <= i < s.len() && (#[trigger] s[i]) is Ok ==> s[i]->Ok_0.key.value_type != ValueType::Indirection }
+proof fn lemma_links_step(w0: TableWriter, w1: TableWriter, x: InternalValue)
+    requires links_follow_items(w0), w1.items == w0.items.push(x), w1.item_tables == w0.item_tables.push(w1.cur),
+        x.key.value_type == ValueType::Indirection ==> w1.link_tables == w0.link_tables.push(w1.cur),
+        x.key.value_type != ValueType::Indirection ==> w1.link_tables == w0.link_tables,
+    ensures links_follow_items(w1)
+{
+    assert(w1.items.drop_last() =~= w0.items);
+    assert(w1.item_tables.drop_last() =~= w0.item_tables);
+}
+spec fn links_follow_items(w: TableWriter) -> bool { w.item_tables.len() == w.items.len() && ptr_tables(w.items, w.item_tables) == w.link_tables }
 pub ghost struct Rec { pub key: Seq<u8>, pub seqno: SeqNo, pub value: Seq<u8> }
 /// vlog BlobFileWriter (unit blob_multi_writer, C08.16): the handle returned names where the record went
 struct BlobFileWriter { ghost recs: Seq<(ValueHandle, Rec)> }
@@ -95,9 +124,12 @@ fn separate(stream: SeqIter<Result<InternalValue, Error>>, table_writer: &mut Ta
         // nothing written to the blob side is lost
         &&& old(blob_writer).recs.len() <= final(blob_writer).recs.len() && forall|k: int| 0 <= k < old(blob_writer).recs.len() ==> (#[trigger] final(blob_writer).recs[k]) == old(blob_writer).recs[k]
     }),
+        // C09.11: each blob link is registered with the table that holds its pointer entry, whenever the table writer rotates
+        // (memtables never hold pointer entries: the flushed stream has none)
+        r is Ok && links_follow_items(*old(table_writer)) && no_ptrs(stream.rest()) ==> links_follow_items(*final(table_writer)),   // @OBL C09.11
 {
     let mut stream = stream;
-//@ FROM src/blob_tree/mod.rs :: impl AbstractTree for BlobTree :: fn flush_to_tables :: STMTS `for item in stream {` .. `for item in stream {` :: OBL C08.18, C12.27
+//@ FROM src/blob_tree/mod.rs :: impl AbstractTree for BlobTree :: fn flush_to_tables :: STMTS `for item in stream {` .. `for item in stream {` :: OBL C08.18, C12.27, C09.11
 //@ SUBST `for item in stream {` ==> `loop { let Some(item) = stream.next() else { break; };`
 //@ SUBST `UserValue :: empty ( )` ==> `Slice::empty()`
 //@ SUBST `crate :: ValueType ::` ==> `ValueType::`
@@ -109,11 +141,12 @@ fn separate(stream: SeqIter<Result<InternalValue, Error>>, table_writer: &mut Ta
             table_writer.items.len() == t0.len() + c, table_writer.items.subrange(0, t0.len() as int) == t0,
             forall|i: int| 0 <= i < c ==> (#[trigger] s0[i]) is Ok && represents(table_writer.items[t0.len() + i], s0[i]->Ok_0, blob_writer.recs),
             b0.len() <= blob_writer.recs.len(), forall|k: int| 0 <= k < b0.len() ==> (#[trigger] blob_writer.recs[k]) == b0[k],
+            links_follow_items(*old(table_writer)) && no_ptrs(s0) ==> links_follow_items(*table_writer),
         ensures c == s0.len(),
         decreases s0.len() - c/*-*/
     { let Some(item) = stream.next() else { break; };
         /*+*/proof { assert(s0.skip(c)[0] == s0[c]); assert(s0.skip(c).skip(1) =~= s0.skip(c + 1)); }
-        let ghost ti = table_writer.items; let ghost bi = blob_writer.recs;/*-*/
+        let ghost ti = table_writer.items; let ghost bi = blob_writer.recs; let ghost wi = *table_writer;/*-*/
         let item = item?;
         /*+*/let ghost inp = item;/*-*/
 
@@ -121,7 +154,8 @@ fn separate(stream: SeqIter<Result<InternalValue, Error>>, table_writer: &mut Ta
             // NOTE: Still need to add tombstone to index tree
             // But no blob to blob writer
             table_writer.write(InternalValue::new(item.key, Slice::empty()))?;
-            /*+*/proof { assert(table_writer.items.drop_last() =~= ti); lemma_step(t0, ti, table_writer.items, s0, c, bi, blob_writer.recs); c = c + 1; }/*-*/
+            /*+*/proof { assert(table_writer.items.drop_last() =~= ti); lemma_step(t0, ti, table_writer.items, s0, c, bi, blob_writer.recs);
+                if links_follow_items(*old(table_writer)) && no_ptrs(s0) { lemma_links_step(wi, *table_writer, table_writer.items.last()); } c = c + 1; }/*-*/
             continue;
         }
 
@@ -149,7 +183,8 @@ fn separate(stream: SeqIter<Result<InternalValue, Error>>, table_writer: &mut Ta
         } else {
             table_writer.write(InternalValue::new(item.key, value))?;
         }
-        /*+*/proof { assert(table_writer.items.drop_last() =~= ti); lemma_step(t0, ti, table_writer.items, s0, c, bi, blob_writer.recs); c = c + 1; }/*-*/
+        /*+*/proof { assert(table_writer.items.drop_last() =~= ti); lemma_step(t0, ti, table_writer.items, s0, c, bi, blob_writer.recs);
+            if links_follow_items(*old(table_writer)) && no_ptrs(s0) { lemma_links_step(wi, *table_writer, table_writer.items.last()); } c = c + 1; }/*-*/
     }
 //@ END
     Ok(())
